@@ -22,7 +22,7 @@ common.assert_repo_import()
 import ampform  # noqa: E402
 from ampform.dynamics.builder import create_relativistic_breit_wigner_with_ff  # noqa: E402
 from ampform.helicity.align.axisangle import AxisAngleAlignment  # noqa: E402
-from ampform.helicity.align.dpd import DalitzPlotDecomposition  # noqa: E402
+from ampform.helicity.align.dpd import DalitzPlotDecomposition, relabel_edge_ids  # noqa: E402
 
 # name -> (reaction, configuration); small models (few amplitudes) first
 ZOO = {
@@ -38,7 +38,7 @@ ZOO = {
     "gpipi_f2_hel": ("jpsi_gpipi_f2_hel", "bw"),
     "3pi_hel_bw": ("jpsi_3pi_hel", "bw"),
     "3pi_hel_dpd": ("jpsi_3pi_hel", "dpd"),
-    "lc_pkpi_hel_dpd": ("lc_pkpi_hel", "dpd,bw"),
+    "lc_pkpi_hel_dpd": ("lc_pkpi_hel", "dpd"),
     "lc_pkpi_can": ("lc_pkpi_can", "bw"),
     "ppbar_can": ("jpsi_ppbar_can", ""),
     "gkk_hel": ("jpsi_gkk_hel", "bw"),
@@ -57,9 +57,11 @@ def build(name: str):
     builder = ampform.get_builder(reaction)
     flags = set(conf.split(","))
     if "dpd" in flags:
+        reaction = relabel_edge_ids(reaction)
+        builder = ampform.get_builder(reaction)
         builder.config.spin_alignment = DalitzPlotDecomposition(reference_subsystem=1)
         builder.config.scalar_initial_state_mass = True
-        builder.config.stable_final_state_ids = [0, 1, 2]
+        builder.config.stable_final_state_ids = [1, 2, 3]
     if "axis" in flags:
         builder.config.spin_alignment = AxisAngleAlignment()
     if "bw" in flags:
@@ -84,8 +86,24 @@ CONST = {"HI": sp.I, "HPi": sp.pi, "HNaN": sp.nan, "HInf": sp.oo, "HNegInf": -sp
          "HTrue": sp.true, "HFalse": sp.false}
 
 
+# The assumption suffix of ser.sym_name(s, assum=True) ("|k1=1,k2=0,...", ~200 characters) is
+# abbreviated to "|<n>" by a process-wide bijective table: Coq's string literals are slow to
+# parse, and the model only uses the suffix as an opaque identity.
+ASSUM_CODE: dict[str, str] = {}
+ASSUM_TEXT: dict[str, str] = {}
+
+
 def sym_str(s: sp.Symbol) -> str:
-    return ser.sym_name(s, True)
+    full = ser.sym_name(s, True)
+    name, bar, assum = full.partition("|")
+    if not bar:
+        return full
+    code = ASSUM_CODE.get(assum)
+    if code is None:
+        code = str(len(ASSUM_CODE) + 1)
+        ASSUM_CODE[assum] = code
+        ASSUM_TEXT[code] = assum
+    return name + "|" + code
 
 
 def ser17(e, reg: Registry) -> str:
@@ -131,7 +149,7 @@ def parse_sym(s: str) -> sp.Symbol:
     name, _, assum = s.partition("|")
     kw = {}
     if assum:
-        for item in assum.split(","):
+        for item in ASSUM_TEXT[assum].split(","):
             k, v = item.split("=")
             kw[k] = bool(int(v))
     return sp.Symbol(name, **kw)
@@ -159,7 +177,7 @@ def deser(t, reg: Registry):
 
 
 # ---------------------------------------------------------------- parser of Coq output
-TOK = re.compile(r'\s*(\{\||\|\}|:=|[\[\]();,#]|"(?:[^"]|"")*"|-?\d+|[A-Za-z_][A-Za-z_0-9\']*)')
+TOK = re.compile(r'\s*(\{\||\|\}|:=|[\[\]();,#]|"(?:[^"]|"")*"|-?\d+(?:%[A-Za-z]+)?|[A-Za-z_][A-Za-z_0-9\']*)')
 
 
 def tokenize(s: str) -> list[str]:
@@ -169,7 +187,10 @@ def tokenize(s: str) -> list[str]:
         m = TOK.match(s, pos)
         if not m:
             raise ValueError(f"cannot tokenize at {s[pos:pos + 40]!r}")
-        out.append(m.group(1))
+        tok = m.group(1)
+        if "%" in tok and not tok.startswith('"'):
+            tok = tok.split("%")[0]
+        out.append(tok)
         pos = m.end()
     return out
 
@@ -241,6 +262,9 @@ class P:
         if re.fullmatch(r"-?\d+", tok):
             self.eat()
             return int(tok)
+        if tok in ("true", "false"):
+            self.eat()
+            return tok
         raise ValueError(f"unexpected token {tok}")
 
     def head(self):
@@ -255,7 +279,12 @@ class P:
     def num(self):
         tok = self.eat()
         if tok == "(":
-            n = int(self.eat())
+            if self.peek() == "(":
+                self.eat()
+                n = int(self.eat())
+                self.eat(")")
+            else:
+                n = int(self.eat())
             d = 1
             if self.peek() == "#":
                 self.eat()
@@ -387,7 +416,8 @@ def gen_map(rng, m, kind: str):
     if kind == "merge_kin_par":
         if not pars or not kins:
             return None
-        k, p = rng.choice(kins), rng.choice(pars)
+        same = [(k, p) for k in kins for p in pars if k.assumptions0 == p.assumptions0]
+        k, p = rng.choice(same) if same and rng.random() < 0.8 else (rng.choice(kins), rng.choice(pars))
         return rng.choice([[(k.name, p.name)], [(p.name, k.name)]]), "dict"
     if kind == "merge_kin_kin":
         xs = pick(kins, 2)
